@@ -1,6 +1,7 @@
 package props
 
 import (
+	"io"
 	"fmt"
 	"math"
 	"os"
@@ -363,6 +364,7 @@ type flakySource struct {
 	reftable.ByteBlockSource
 	failAt, reads int
 	failed        bool
+	eof           bool // fail with io.EOF instead of a custom error
 }
 
 var errFlakyRead = fmt.Errorf("harness: injected read error")
@@ -371,6 +373,10 @@ func (f *flakySource) ReadBlock(off uint64, size int) ([]byte, error) {
 	f.reads++
 	if f.failAt > 0 && f.reads == f.failAt {
 		f.failed = true
+		if f.eof {
+			// what a file block source returns when the file was truncated after opening
+			return nil, io.EOF
+		}
 		return nil, errFlakyRead
 	}
 	return f.ByteBlockSource.ReadBlock(off, size)
@@ -463,6 +469,7 @@ func flakySourceSweep(c *Ctx, idx int, t *gen.Table, data []byte) {
 				return
 			}
 			src.reads, src.failAt = 0, k
+			src.eof = (k+len(x.key))%2 == 1
 			got, err := runQ(rd, x)
 			r.Evaluations++
 			r.Count("reader_queries_with_failing_read", 1)
